@@ -4,7 +4,7 @@ From Coq Require Import List NArith ZArith String Bool.
 From GQL Require Import Exec.Syntax Validate.VSyntax Validate.Overlap Validate.OverlapSpec Validate.Rules
      Exec.Exec Proofs.ValidateOverlap Proofs.ValidateRules Proofs.ValidateMerge Proofs.ValidateMemo Proofs.ValidateInputFields Proofs.ValidateArgs Proofs.ValidateCycles Proofs.ValidateUnused Proofs.ValidateMemoHard Proofs.ValidateL1 Validate.All Proofs.ValidateAll Proofs.ValidateCyclesComplete
      Validate.OverlapWf Proofs.ValidateReflect Proofs.ValidateReflectClose Proofs.ValidateFuel Proofs.ValidateDecide
-     Proofs.ValidateWf Proofs.ValidateRank Proofs.ValidateWfDoc.
+     Proofs.ValidateWf Proofs.ValidateRank Proofs.ValidateWfDoc Proofs.ValidateClosure.
 Import ListNotations.
 Open Scope string_scope.
 
@@ -254,14 +254,6 @@ Theorem C02_rule_sound_no_fragment_cycles_partial : forall W,
 Proof. exact no_fragment_cycles_sound. Qed.
 Print Assumptions C02_rule_sound_no_fragment_cycles_partial.
 
-(* NoUnusedFragments, one direction (partial): a fragment definition that no operation
-   reaches through spreads is reported.  Missing: a reported fragment is unreachable (the
-   closure iteration of the model is complete), checked by the differential only. *)
-Theorem C02_rule_complete_no_unused_fragments_partial : forall W,
-  Violates_no_unused_fragments W -> rule_no_unused_fragments W <> [].
-Proof. exact no_unused_fragments_complete. Qed.
-Print Assumptions C02_rule_complete_no_unused_fragments_partial.
-
 (* NoFragmentCycles, both directions: with unique fragment names the DFS as coded reports an
    error exactly when some fragment reaches itself through spreads. *)
 Theorem C02_rule_iff_no_fragment_cycles : forall W,
@@ -270,13 +262,18 @@ Theorem C02_rule_iff_no_fragment_cycles : forall W,
 Proof. exact no_fragment_cycles_iff. Qed.
 Print Assumptions C02_rule_iff_no_fragment_cycles.
 
-(* NoUnusedFragments, both directions, when the closure iteration of the model did not fall
-   short (closures_stable is an executable test; RecursivelyReferencedFragments itself is a
-   terminating worklist). *)
+(* NoUnusedFragments, both directions: a fragment definition is reported exactly when no
+   operation reaches it through spreads.  The closure iteration of the model of
+   RecursivelyReferencedFragments (|fragments| + 1 rounds) never falls short
+   (C02_closure_reaches_fixpoint: every unstable round was preceded by the first appearance of
+   a defined fragment name). *)
+Theorem C02_closure_reaches_fixpoint : forall W, closures_stable W = true.
+Proof. exact closures_stable_always. Qed.
+Print Assumptions C02_closure_reaches_fixpoint.
+
 Theorem C02_rule_iff_no_unused_fragments : forall W,
-  closures_stable W = true ->
-  (rule_no_unused_fragments W <> [] <-> Violates_no_unused_fragments W).
-Proof. exact no_unused_fragments_iff. Qed.
+  rule_no_unused_fragments W <> [] <-> Violates_no_unused_fragments W.
+Proof. exact no_unused_fragments_iff_all. Qed.
 Print Assumptions C02_rule_iff_no_unused_fragments.
 
 (* ---- the executable overlap algorithm decides the declarative layers ---- *)
@@ -371,13 +368,12 @@ Print Assumptions C02_overlap_exec_decides_b.
 (* The validator's model accepts a document iff no rule is violated (Violates r is the
    declarative predicate of rule r; for the overlap rule it is ~ L1_accepts).  The hypotheses
    are decidable and hold for every parsed document over a schema the library accepts (the
-   runner checks them on every case): the closure test of NoUnusedFragments' model, distinct
+   runner checks them on every case): distinct
    non-zero selection ids, no redefinition of __typename / String, enough fuel.  Unique
    fragment names, acyclicity and unique argument names are NOT assumed: a document violating
    them is rejected by UniqueFragmentNames / NoFragmentCycles / UniqueArgumentNames on both
    sides of the equivalence. *)
 Theorem C02_accept_iff : forall fuel S W,
-  closures_stable W = true ->
   ids_ok (erase W) = true ->
   meta_ok S = true ->
   (fuel_of (erase W) <= fuel)%nat ->
@@ -425,9 +421,9 @@ Definition exW (second : name) : wdoc :=
                  {| wf_id := 37; wf_nid := 46; wf_name := "G"; wf_tcid := 51; wf_cond := "Q"; wf_dirs := [];
                     wf_ssid := 53; wf_sel := [WField 56 (Some "x") second [] [] 0 []] |}] |}.
 Example C02_nonvacuous_accept :
-  closures_stable (exW "a") = true /\ ids_ok (erase (exW "a")) = true /\ meta_ok exS = true /\
+  ids_ok (erase (exW "a")) = true /\ meta_ok exS = true /\
   Nat.leb (fuel_of (erase (exW "a"))) 50 = true /\ validate_model 50 exS (exW "a") = [] /\
-  closures_stable (exW "b") = true /\ ids_ok (erase (exW "b")) = true /\
+  ids_ok (erase (exW "b")) = true /\
   Nat.leb (fuel_of (erase (exW "b"))) 50 = true /\ validate_model 50 exS (exW "b") = [2%N].
 Proof. repeat split; vm_compute; reflexivity. Qed.
 
